@@ -134,6 +134,8 @@ def sub(rid, which, ci, v0, v1, v2, v3, v4, v5, v6):
     except ValueError:
         ok = False
     if st == "not_computable":
+        if ok and all(status(t, (s,), I) == "not_computable" for s in S):
+            return fail("a request none of whose outputs is computable was not rejected")
         if ok:
             # the sub-pipeline may still be constructible; then every call for an output must fail
             for s in S:
